@@ -116,6 +116,9 @@ fn digest(bs: &[u8]) -> String {
 /// `element_count() == iter().count()` (iter() panics on a badly framed buffer: caught by hx as PANIC)
 fn check_count(sv: &SerializedValues, what: &str, ctx: &mut Ctx) -> usize {
     let n = sv.iter().count();
+    if parse_cells(&sv_bytes(sv)) != Some(n) {
+        ctx.fail(format!("count: iter() yields {} values but the buffer holds {:?} cells {}", n, parse_cells(&sv_bytes(sv)), what));
+    }
     if n != sv.element_count() as usize {
         ctx.fail(format!("count: element_count() = {} but iter().count() = {} {}", sv.element_count(), n, what));
     }
@@ -483,6 +486,7 @@ pub fn run(case: &str, ctx: &mut Ctx) -> String {
             run_tcrow(hd[1], &tys)
         }
         Some("row") => run_row(case.trim().strip_prefix("row").unwrap_or("").trim(), ctx),
+        Some("bind") if hd.len() >= 3 => run_bind(&hd[1..], ctx),
         Some("big") if hd.len() == 2 => run_big(hd[1], ctx),
         _ => "bad-case".to_owned(),
     }
